@@ -79,6 +79,25 @@ Outcome(len, h, dec) ==
       [] p = "accept" /\ ~dec -> [class |-> "reported", handled |-> 0, invalid |-> 1, reply |-> "formerr"]
 
 -----------------------------------------------------------------------------
+(* Lifecycle.  "For every datagram or stream message a server receives": a    *)
+(* message has been RECEIVED when the read that carries it completed          *)
+(* successfully -- whatever the server's `started' flag says at that instant. *)
+(* The statement has no exception for a server that is being shut down: a     *)
+(* Shutdown that begins while that read is still blocked (and unblocks it by  *)
+(* moving the deadline) does not un-receive a message the read returns all    *)
+(* the same; it is handled, refused by the policy or reported like any other  *)
+(* (C13 makes Shutdown wait for it, and keeps the packet conn open for the    *)
+(* reply).  A phase says where the shutdown falls relative to the message:    *)
+(*   "serving"   no Shutdown before the message is disposed of                *)
+(*   "stopping"  Shutdown has cleared `started', kicked the readers and        *)
+(*               released srv.lock before the read returns -- successfully,   *)
+(*               with the message; the whole disposition runs while the       *)
+(*               server is not started and Shutdown waits for the drain       *)
+Phases == {"serving", "stopping"}
+
+OutcomeAt(phase, len, h, dec) == Outcome(len, h, dec)       \* no phase is an exception
+
+-----------------------------------------------------------------------------
 (* Replies the library constructs itself.  r is the header of the reply (same *)
 (* record shape as a request header).  The statement fixes: the request's ID, *)
 (* QR set, the rcode, and no answer / authority / additional records.  NOTIMP *)
